@@ -20,9 +20,10 @@ Ev == Traces[tid].events
 
 (* ---- the projection of the spec's NEXT state, in the shape harness/onion.py logs it ---- *)
 PCirc(n) == {[cid |-> c, goal |-> circ'[n][c].goal, hops |-> HopPeers(circ'[n][c]), unv |-> circ'[n][c].unv.peer,
-              closing |-> circ'[n][c].closing, early |-> circ'[n][c].early] : c \in DOMAIN circ'[n]}
+              closing |-> circ'[n][c].closing, early |-> circ'[n][c].early, ctype |-> circ'[n][c].ctype,
+              hs |-> circ'[n][c].hs # NoKey] : c \in DOMAIN circ'[n]}
 PRelay(n) == {[cid |-> c, to |-> relay'[n][c].to, next |-> relay'[n][c].next, dir |-> relay'[n][c].dir,
-               early |-> relay'[n][c].early] : c \in DOMAIN relay'[n]}
+               early |-> relay'[n][c].early, rdv |-> relay'[n][c].rdv] : c \in DOMAIN relay'[n]}
 PExit(n) == {[cid |-> c, prev |-> exit'[n][c].prev, pk |-> exit'[n][c].pk, enabled |-> exit'[n][c].enabled,
               open |-> exit'[n][c].open, queued |-> Len(exit'[n][c].q)] : c \in DOMAIN exit'[n]}
 PRetry(n) == {[cid |-> c, ident |-> retryC'[n][c].ident, tries |-> retryC'[n][c].tries, alts |-> retryC'[n][c].alts,
@@ -61,6 +62,9 @@ Step(e) ==
     [] e.a = "SendData"      -> SendData(e.o, e.cid, "outside")
     [] e.a = "RemoveCircuit" -> RemoveCircuit(e.o, e.cid, e.destroy)
     [] e.a = "ExitReturn"    -> ExitReturn(e.x, e.cid, e.p)
+    [] e.a = "LinkE2E"       -> LinkE2E(e.rp, e.c1, e.c2, e.o1, e.k1, e.o2, e.k2)
+    [] e.a = "SendE2E"       -> SendE2E(e.o, e.cid)
+    [] e.a = "RPForge"       -> RPForge(e.rp, e.cid)
     [] e.a = "TransportsReady" -> TransportsReady(e.n, e.cid)
     [] e.a = "Deliver"       -> \E d \in net : d.id = e.id /\ Deliver(d)
     [] e.a = "Lose"          -> \E d \in net : d.id = e.id /\ Lose(d)
